@@ -152,15 +152,15 @@ class Check:
             raise Infra("trace validation %s could not be evaluated:\n%s" % (name, r.tail(60)))
         import re
         idxs = sorted(set(int(x) for x in re.findall(r"/\\ cur = (\d+)", r.out)))
-        # a rejection is reported only if a second validation of the same events repeats it
+        # a rejection is reported only if a second validation of the SAME trace repeats it
         bad_events = [events[i - 1] for i in idxs if 1 <= i <= len(events)]
         if bad_events:
-            p2 = "%s/%s.recheck.ndjson" % (self.out, name)
-            vlib.write_ndjson(p2, bad_events)
-            r2 = self.tlc(module, cfg, env={"TRACE": p2}, extra=("-continue",), timeout=timeout, expect_ok=False)
+            r2 = self.tlc(module, cfg, env={"TRACE": path}, extra=("-continue",), timeout=timeout, expect_ok=False)
             if r2.ok:
                 self.notes.append("trace rejection of %s not reproduced on re-validation" % name)
                 return True
+            idxs2 = set(int(x) for x in re.findall(r"/\\ cur = (\d+)", r2.out))
+            bad_events = [events[i - 1] for i in idxs if i in idxs2 and 1 <= i <= len(events)] or bad_events
         for ev in bad_events[:20]:
             self.violation("trace %s: event rejected by the specification" % name, [ev], variant)
         if not bad_events:
